@@ -304,5 +304,5 @@ def grid_cases(tier, seed):
 PARTS = [
     Part("grid", "enum", check, cases=grid_cases, exhaustive=False),
     Part("random", "hyp", check, strategy=random_strategy,
-         examples={"quick": 700, "thorough": 10000}, shards={"quick": 4, "thorough": 16}),
+         examples={"quick": 700, "thorough": 30000}, shards={"quick": 4, "thorough": 16}),
 ]
